@@ -224,8 +224,9 @@ class Kymo(ConfocalImage):
         if i_max < len(line_timestamp_starts):
             stop = line_timestamp_starts[i_max]
         else:
-            # Set `stop` to at least the stop timestamp of the very last line
-            stop = max(stop, line_timestamp_ranges[-1, 1])
+            # Set `stop` to at least the stop timestamp of the very last line, but never beyond
+            # the end of this kymograph (it may itself be a slice of a longer recording)
+            stop = max(min(stop, self.stop), line_timestamp_ranges[-1, 1])
 
         start = line_timestamp_starts[i_min]
 
